@@ -89,10 +89,10 @@ func locID(cdp []string) string {
 // with verdicts "accept" / "revoked" / "error" (strictness).
 func refHistory(cfg HistCfg, steps []Step) []string {
 	type entry struct {
-		locs    []string
-		list    string          // in-force list ("" = none)
-		chain   map[string]bool // certificates of the handshake that created the entry (kept until loaded)
-		signer  string          // signer stored with the in-force list ("" = none)
+		locs   []string
+		list   string          // in-force list ("" = none)
+		chain  map[string]bool // certificates of the handshake that created the entry (kept until loaded)
+		signer string          // signer stored with the in-force list ("" = none)
 	}
 	serve := map[string]string{}
 	entries := map[string]*entry{}
